@@ -18,6 +18,7 @@ class ItemsMonitor(Monitor):
     def _table(self, key, info, attempt):
         t = self.tables.get(key)
         if t is None or t["closed"] or t["attempt"] != attempt:
+            self._against_definition(info)
             t = dict(n=info.get("items_count"), k=info.get("concurrency"), offered=[], inflight=set(), done={},
                      closed=False, attempt=attempt, stopped=None, task=key[0], route=key[1], first_step=info["step"],
                      rerun=False)
@@ -27,7 +28,37 @@ class ItemsMonitor(Monitor):
                 self.stats["limited"] += 1
         return t
 
+    def _against_definition(self, info):
+        """the number of items and the concurrency limit are taken from the definition and the context the task was
+        offered with, not from what the engine says about them (`items_count` / `concurrency` of the offer)"""
+        run = self.run
+        m = getattr(run, "model", None)
+        if m is None or info["task"] not in m.tasks or m.tasks[info["task"]].items is None:
+            return
+        it = m.tasks[info["task"]].items
+        ctx = info.get("ctx") or {}
+        lst = ctx.get(it["var"])
+        if isinstance(lst, list):
+            self.stats["counts_checked_against_definition"] = self.stats.get("counts_checked_against_definition", 0) + 1
+            if info.get("items_count") != len(lst):
+                run.viol("C12", "items_count_wrong", "task %s is offered with items_count %r, its context holds a list of %d items"
+                         % (info["task"], info.get("items_count"), len(lst)), subject=info["task"])
+        c = it.get("conc")
+        k = ctx.get(c[1]) if isinstance(c, (tuple, list)) else c
+        if c is None:
+            want = None
+        elif isinstance(k, int) and not isinstance(k, bool):
+            want = k
+        else:
+            return  # an expression that does not yield an integer: C11's business
+        got = info.get("concurrency")
+        if (want is None) != (got is None) or (want is not None and max(1, want) != max(1, got)):
+            run.viol("C12", "concurrency_wrong", "task %s is offered with concurrency %r, the definition says %r"
+                     % (info["task"], got, want), subject=info["task"])
+            info["concurrency"] = want  # the window is checked against the definition
+
     def on_offer(self, run, ev, info, action, rec):
+        self.run = run
         if info.get("items_count") is None:
             return
         key = (info["task"], info["route"])
